@@ -1,7 +1,7 @@
 (* Dispatcher for the arithmetic / hashing kernel (C05): every internal C function is compared with
    its mathematical definition (Spec/Field.v, Spec/Curve.v, Spec/Sha256.v). *)
 From Coq Require Import ZArith List Bool String Ascii.
-Require Import Spec.Params Spec.Field Spec.Curve Spec.Bytes Spec.Sha256 Model.Base.
+Require Import Spec.Params Spec.Field Spec.Curve Spec.Bytes Spec.Sha256 Model.Base Model.Sha256Stream.
 Import ListNotations.
 Local Open Scope Z_scope.
 
@@ -23,6 +23,16 @@ Definition drbg_gen (d : drbg) (outlen : Z) : bytes * drbg :=
   (out, (v', k, true)).
 Fixpoint drbg_multi (d : drbg) (lens : list Z) : list arg :=
   match lens with [] => [] | l :: r => let '(o, d') := drbg_gen d l in ABytes o :: drbg_multi d' r end.
+
+(* the writes performed by the sha256_chunks op: data is cut at the given (sorted, in-range) positions;
+   cuts that go backwards or beyond the data are skipped, as in the C op *)
+Fixpoint cut_chunks (pos : nat) (cuts : list Z) (data : bytes) : list bytes :=
+  match cuts with
+  | [] => [skipn pos data]
+  | c :: r => let c' := Z.to_nat c in
+              if (c <? 0) || (c' <? pos)%nat || (List.length data <? c')%nat then cut_chunks pos r data
+              else firstn (c' - pos) (skipn pos data) :: cut_chunks c' r data
+  end.
 
 Section Kernel.
 Variable P : Params.
@@ -148,7 +158,7 @@ Definition dispatch_kernel (op : string) (a : list arg) : list arg :=
   else if (op =? "ecmult_multi")%string then
     [AInt 1; ptb (padd P (multi_sum (chunk_list 64 (B 3)) (chunk_list 32 (B 4))) (pmul P (sc_arg (nth_arg 2 a)) (G P)))]
   else if (op =? "wnaf")%string then [AInt 1; scb (be_val (B 0))]
-  else if (op =? "sha256_chunks")%string then [ABytes (sha256 (B 0))]
+  else if (op =? "sha256_chunks")%string then [ABytes (sha256_stream (cut_chunks 0 (map get_int (tl a)) (B 0)))]
   else if (op =? "hmac_chunks")%string then [ABytes (hmac_sha256 (B 0) (B 1))]
   else if (op =? "rfc6979_multi")%string then drbg_multi (drbg_init (B 0)) (map get_int (tl a))
   else if (op =? "sha256_midstate")%string then
